@@ -259,6 +259,13 @@ class BundleFlattener(ElabPass):
             msg = f"Invalid Port Connection to {portname} on Instance {inst}"
             self.fail(msg)
 
+        # Check for connected members which the port does not have
+        extra = [p for p in flat.signals.keys() if p not in flat_bundle_port.signals]
+        if extra:
+            msg = f"Connection to `{portname}` on Instance `{inst.name}` "
+            msg += f"has members `{extra}`, which the port does not. "
+            self.fail(msg)
+
         # Disconnect the old hierarchical Bundle port
         inst.disconnect(portname)
 
